@@ -180,7 +180,7 @@ def method_stores(f: FuncInfo) -> set:
 
 
 def store_node(ev: Evaluator, obj, attr):
-    for o, a, v, node, func in reversed(ev.stores):
+    for o, a, v, node, func, _seq in reversed(ev.stores):
         if o == obj and a == attr:
             return node, func
     return None, None
